@@ -87,11 +87,42 @@ class ClassInfo:
         return f"ClassInfo({self.qual})"
 
 
+class _ClassTable(dict):
+    """qualified name -> ClassInfo. A name under which a class is merely re-exported (`from ._impl import X` in the module that
+    used to define X) finds the class where it now lives."""
+
+    def __init__(self, repo):
+        super().__init__()
+        self._repo = repo
+
+    def _moved(self, key):
+        if isinstance(key, str) and self._repo.modules:
+            c = self._repo.canonical(key)
+            if c != key and dict.__contains__(self, c):
+                return c
+        return None
+
+    def __missing__(self, key):
+        c = self._moved(key)
+        if c is None:
+            raise KeyError(key)
+        return dict.__getitem__(self, c)
+
+    def get(self, key, default=None):
+        if dict.__contains__(self, key):
+            return dict.__getitem__(self, key)
+        c = self._moved(key)
+        return dict.__getitem__(self, c) if c is not None else default
+
+    def __contains__(self, key):
+        return dict.__contains__(self, key) or self._moved(key) is not None
+
+
 class Repo:
     def __init__(self, root: str = REPO):
         self.root = root
         self.modules: Dict[str, Module] = {}
-        self.classes: Dict[str, ClassInfo] = {}
+        self.classes: Dict[str, ClassInfo] = _ClassTable(self)
         self._mro_cache: Dict[str, List[str]] = {}
         self._load()
 
@@ -336,6 +367,36 @@ class Repo:
                     continue
                 return qual
         return qual
+
+    def global_def(self, modname: str, name: str, _depth: int = 0):
+        """Where a module-level name is defined, following re-exports (`from ._impl import name [as alias]`):
+        ('class', Module, ClassInfo) | ('function', Module, FunctionDef) | ('assign', Module, [value expressions]) | None"""
+        m = self.modules.get(modname)
+        if m is None or _depth > 10:
+            return None
+        if name in m.classes:
+            return ("class", m, m.classes[name])
+        if name in m.functions:
+            return ("function", m, m.functions[name])
+        if name in m.assigns:
+            return ("assign", m, m.assigns[name])
+        if name in m.imports:
+            target = m.imports[name]
+            if "." in target:
+                tm, tn = target.rsplit(".", 1)
+                if tm in self.modules:
+                    return self.global_def(tm, tn, _depth + 1)
+        return None
+
+    def function(self, modname: str, name: str):
+        """(Module, FunctionDef) of a module-level function, wherever a re-export leads; None if there is none"""
+        d = self.global_def(modname, name)
+        return (d[1], d[2]) if d and d[0] == "function" else None
+
+    def assign(self, modname: str, name: str):
+        """(Module, value expression) of a module-level constant bound exactly once, wherever a re-export leads"""
+        d = self.global_def(modname, name)
+        return (d[1], d[2][0]) if d and d[0] == "assign" and len(d[2]) >= 1 else None
 
     def resolve_name(self, m: Module, name: str) -> Optional[str]:
         if name in m.classes:
